@@ -67,9 +67,10 @@ pub enum ReceiverGeneration {
 
 /// In a signature that has both a `&self` receiver and the `__impl` dependency (dynamic delegation), an
 /// elided lifetime in the return type would refer to `&self`. The function behind the method borrows
-/// from its dependency, which is `__impl`: name that lifetime.
-pub fn tie_elided_output_to_impl(sig: &mut syn::Signature) {
-    tie_elided_output(sig, TieTo::ImplParam)
+/// from its dependency, which is `__impl`: name that lifetime (`deps_lifetime` is the one the user wrote on
+/// the dependency reference, if any).
+pub fn tie_elided_output_to_impl(sig: &mut syn::Signature, deps_lifetime: Option<&syn::Lifetime>) {
+    tie_elided_output(sig, TieTo::ImplParam(deps_lifetime.cloned()))
 }
 
 /// A function without dependency (`no_deps`) gets a `&self` receiver inserted. An elided lifetime in its return
@@ -79,16 +80,18 @@ pub fn tie_elided_output_to_params(sig: &mut syn::Signature) {
 }
 
 enum TieTo {
-    ImplParam,
+    ImplParam(Option<syn::Lifetime>),
     Params,
 }
 
 fn tie_elided_output(sig: &mut syn::Signature, tie_to: TieTo) {
     use syn::visit_mut::VisitMut;
 
+    /// Names every elided lifetime it visits, and notes the named ones it comes across
     struct Elided {
         lifetime: syn::Lifetime,
         found: bool,
+        named: Vec<syn::Lifetime>,
     }
 
     impl VisitMut for Elided {
@@ -104,6 +107,8 @@ fn tie_elided_output(sig: &mut syn::Signature, tie_to: TieTo) {
             if lifetime.ident == "_" {
                 *lifetime = self.lifetime.clone();
                 self.found = true;
+            } else if *lifetime != self.lifetime && !self.named.contains(lifetime) {
+                self.named.push(lifetime.clone());
             }
         }
 
@@ -116,27 +121,47 @@ fn tie_elided_output(sig: &mut syn::Signature, tie_to: TieTo) {
         }
     }
 
+    let fresh = |name: &str| syn::Lifetime::new(name, proc_macro2::Span::call_site());
+
+    // The lifetime that the elided ones of the return type stand for, and whether it has to be declared
+    let (lifetime, declare) = match &tie_to {
+        TieTo::ImplParam(Some(deps_lifetime)) => (deps_lifetime.clone(), false),
+        TieTo::ImplParam(None) => (fresh("'entrait_impl"), true),
+        TieTo::Params => {
+            // with a single named lifetime among the parameters and none elided, elision picks that one
+            let mut scan = Elided {
+                lifetime: fresh("'entrait_arg"),
+                found: false,
+                named: vec![],
+            };
+            for fn_arg in sig.inputs.iter() {
+                if let syn::FnArg::Typed(param) = fn_arg {
+                    scan.visit_type_mut(&mut param.ty.as_ref().clone());
+                }
+            }
+            match (scan.found, scan.named.as_slice()) {
+                (false, [single]) => (single.clone(), false),
+                _ => (fresh("'entrait_arg"), true),
+            }
+        }
+    };
+
     let mut elided = Elided {
-        lifetime: syn::Lifetime::new(
-            match tie_to {
-                TieTo::ImplParam => "'entrait_impl",
-                TieTo::Params => "'entrait_arg",
-            },
-            proc_macro2::Span::call_site(),
-        ),
+        lifetime,
         found: false,
+        named: vec![],
     };
 
     if let syn::ReturnType::Type(_, ty) = &mut sig.output {
         elided.visit_type_mut(ty);
     }
 
-    if !elided.found {
+    if !elided.found || !declare {
         return;
     }
 
     match tie_to {
-        TieTo::ImplParam => {
+        TieTo::ImplParam(_) => {
             if let Some(syn::FnArg::Typed(impl_param)) = sig.inputs.iter_mut().nth(1) {
                 if let syn::Type::Reference(reference) = impl_param.ty.as_mut() {
                     reference.lifetime = Some(elided.lifetime.clone());
